@@ -467,6 +467,11 @@ pub fn run_case_text(case: &Case, text: &str) -> RunOut {
         s
     };
 
+    // (a caller that asks for the static rows before it runs the test against a device)
+    if case.run_static && case.static_first {
+        out.statik = Some(run_static_part(&tc, case));
+    }
+
     // DUTs
     let mut duts: Vec<AnyDut> = vec![];
     let mut logs = vec![];
@@ -662,12 +667,20 @@ pub fn run_case_text(case: &Case, text: &str) -> RunOut {
     }
     out.iters = hists;
 
-    if case.run_static {
+    if case.run_static && !case.static_first {
+        out.statik = Some(run_static_part(&tc, case));
+    }
+
+    out.log_hash = hash_of(&out);
+    out
+}
+
+fn run_static_part(tc: &digital_test_runner::TestCase, case: &Case) -> StaticHist {
         let all = &tc.signals[..];
         verif_hooks::set_entropy(Some(case.entropy.first().copied().unwrap_or(0)));
         let st = guarded(|| tc.try_iter_static());
         verif_hooks::set_entropy(None);
-        out.statik = Some(match st {
+        let hist = match st {
             Err(p) => StaticHist::Panic(p),
             Ok(Err(e)) => StaticHist::Refused(format!("{e:?}")),
             Ok(Ok(mut it)) => {
@@ -712,12 +725,9 @@ pub fn run_case_text(case: &Case, text: &str) -> RunOut {
                 }
                 StaticHist::Ran(items)
             }
-        });
+        };
         let _ = verif_hooks::take_draw_log();
-    }
-
-    out.log_hash = hash_of(&out);
-    out
+        hist
 }
 
 fn hash_of(out: &RunOut) -> u64 {
